@@ -1,6 +1,6 @@
 """Property -> clauses -> rule instances.  Each check_Cxx fills a Report; it never prints."""
 from .model import AnalysisError
-from .rules import twin, effect, work, feedback
+from .rules import twin, effect, work, feedback, models, misc
 
 ALG = ['dfa_algorithms', 'nfa_algorithms', 'pda_algorithms', 'tm_algorithms', 'cfg_algorithms', 'regexp_algorithms']
 
@@ -63,7 +63,7 @@ def check_C03(ctx, rep):
 
 
 def check_C04(ctx, rep):
-    rep.clauses_decided += ['refinement loops stop only at a stable partition and every change is registered (R-WORK W5, Hopcroft sub-template)',
+    rep.clauses_decided += ['placeholder blocks never become states (R-SLOT)', 'refinement loops stop only at a stable partition and every change is registered (R-WORK W5, Hopcroft sub-template)',
                             'input DFA unchanged (R-EFFECT)']
     rep.not_decided += ['that the stable partition is the Myhill-Nerode partition; equivalence of the result; independence of the language from the choice order']
     if not work.check_flag_fixpoint(ctx, rep, ctx.prog.func('dfa_algorithms.dfa_minimize')):
@@ -71,6 +71,8 @@ def check_C04(ctx, rep):
     if not work.check_partition_fixpoint(ctx, rep, ctx.prog.func('dfa_algorithms.dfa_quotient')):
         raise AnalysisError('quotient refinement loop vanished')
     _worklists_in(ctx, rep, ['dfa_algorithms.dfa_hopfcroft'])
+    if not misc.check_slots(ctx, rep, ctx.prog.func('dfa_algorithms.dfa_from_table')):
+        rep.note('dfa_from_table no longer builds its blocks in a placeholder list (R-SLOT has no instance)')
     _effect_on(ctx, rep, ['dfa_algorithms.dfa_minimize', 'dfa_algorithms.dfa_from_table', 'dfa_algorithms.dfa_quotient', 'dfa_algorithms.dfa_hopfcroft'])
 
 
@@ -105,6 +107,19 @@ def check_C10(ctx, rep):
     _effect_on(ctx, rep, ['pda_algorithms.pda_to_cfg', 'pda_algorithms.pda_to_push_pop', 'pda_algorithms.pda_to_accept_on_empty_stack', 'pda_algorithms.pda_is_push_pop'])
 
 
+def check_C11(ctx, rep):
+    rep.clauses_decided += ['head >= 0 after every step, missing-transition default, blank extension, write before move (M6)',
+                            'verdict loop and trace loop are the same machine; step precondition holds at every call; verdicts only on halting states (R-TM)',
+                            'same default budget at the entry points, forwarded by the enumerator (R-TM.budget)']
+    rep.not_decided += ['step-by-step agreement with delta beyond those facts']
+    P = ctx.prog.func
+    models.check_tm_step(ctx, rep, P('tm_algorithms.tm_do_transition'))
+    misc.check_tm_loops(ctx, rep, P('tm_algorithms.tm_accepts_word'), P('tm_algorithms.tm_simulate_word'))
+    misc.check_tm_budget(ctx, rep, [P('tm_algorithms.tm_accepts_word'), P('tm_algorithms.tm_simulate_word'), P('tm_algorithms.tm_words_up_to_n')],
+                         P('tm_algorithms.tm_words_up_to_n'))
+    _effect_on(ctx, rep, ['tm_algorithms.tm_accepts_word', 'tm_algorithms.tm_simulate_word', 'tm_algorithms.tm_words_up_to_n', 'tm_algorithms.tm_do_transition'], shared=False)
+
+
 def check_C12(ctx, rep):
     rep.clauses_decided += ['no recorded error is dropped (K1)', 'OK and an error never lie on one path (K2)', 'handlers report errors (K3)',
                             'answer/reference roles and polarity of the language comparison (K4)', 'minimal counterexample (K5)',
@@ -126,9 +141,29 @@ def check_C12(ctx, rep):
 
 
 def check_C14(ctx, rep):
-    rep.clauses_decided += ['totalisation twin pairing (R-TWIN)', 'operands untouched and not shared (R-EFFECT a/b)', 'reachability search discipline (R-WORK)']
+    rep.clauses_decided += ['accepting sets are OR/AND/XOR, Q-F, F&reach (M1)', 'edge transformers equal the specification table (M2)',
+                            'prefix helpers take prefixes starting with the empty one (M8)', 'totalisation twin pairing (R-TWIN)', 'operands untouched and not shared (R-EFFECT a/b)', 'reachability search discipline (R-WORK)']
     rep.not_decided += ['the reachability argument of dfa_no_extend; exact semantics of the one-line set helpers']
     _twins(ctx, rep, ['dfa_make_total'])
+    P = ctx.prog.func
+    n = models.check_product_accepting(ctx, rep, P('dfa_algorithms.dfa_product'))
+    if n < 3:
+        rep.note('fewer than three product types recognised')
+    models.check_product_wrappers(ctx, rep, [('dfa_algorithms.dfa_union', 'union'), ('dfa_algorithms.dfa_intersection', 'intersection'),
+                                             ('dfa_algorithms.dfa_symmetric_difference', 'symmetric_difference')])
+    models.check_product_step(ctx, rep, P('dfa_algorithms.dfa_product'))
+    models.check_set_model(ctx, rep, P('dfa_algorithms.dfa_complement'), 'DFA', 'F', {'Q': {'D.Q'}, 'F': {'D.F'}}, lambda a: a['Q'] and not a['F'], 'Q - F')
+    models.check_set_model(ctx, rep, P('dfa_algorithms.dfa_remove_unreachable_states'), 'DFA', 'F',
+                           {'F': {'D.F'}, 'reach': {'dfa_reachable_states(D, q0)', 'dfa_reachable_states(D, D.q0)'}}, lambda a: a['F'] and a['reach'], 'F & reachable')
+    models.check_set_model(ctx, rep, P('dfa_algorithms.dfa_remove_unreachable_states'), 'DFA', 'Q',
+                           {'reach': {'dfa_reachable_states(D, q0)', 'dfa_reachable_states(D, D.q0)'}}, lambda a: a['reach'], 'the reachable states')
+    models.check_set_model(ctx, rep, P('dfa_algorithms.dfa_no_prefix'), 'NFA', 'F', {'F': {'D.F'}}, lambda a: a['F'], 'F')
+    models.check_reverse_edges(ctx, rep, P('dfa_algorithms.dfa_reverse'))
+    models.check_no_prefix_edges(ctx, rep, P('dfa_algorithms.dfa_no_prefix'))
+    models.check_reachable_restriction(ctx, rep, P('dfa_algorithms.dfa_remove_unreachable_states'))
+    models.check_make_total(ctx, rep, P('dfa_algorithms.dfa_make_total_in_place'))
+    models.check_prefix_helper(ctx, rep, P('language_algorithms.language_no_prefix'))
+    models.check_no_extend_helper(ctx, rep, P('language_algorithms.language_no_extend'))
     work.check_level_search(ctx, rep, ctx.prog.func('dfa_algorithms.dfa_reachable_states'))
     _effect_on(ctx, rep, ['dfa_algorithms.dfa_product', 'dfa_algorithms.dfa_union', 'dfa_algorithms.dfa_intersection', 'dfa_algorithms.dfa_symmetric_difference',
                           'dfa_algorithms.dfa_complement', 'dfa_algorithms.dfa_reverse', 'dfa_algorithms.dfa_no_prefix', 'dfa_algorithms.dfa_no_extend',
@@ -138,10 +173,21 @@ def check_C14(ctx, rep):
 
 
 def check_C15(ctx, rep):
-    rep.clauses_decided += ['epsilon-path searches terminate and their predecessor maps are written once per node (R-WORK W2/W3)']
+    rep.clauses_decided += ['epsilon-path searches terminate and their predecessor maps are written once per node (R-WORK W2/W3)',
+                            'the unread-input column is the suffix word[k:] in all three simulators (M8)',
+                            'right-hand sides are unpacked into two symbols only under a length-2 test (R-ARITY)']
     rep.not_decided += ['that each returned row is a legal move; leftmost/rightmost order of the derivation']
     _worklists_in(ctx, rep, ['nfa_algorithms.nfa_find_epsilon_path', 'pda_algorithms.pda_find_epsilon_path'])
     work.check_worklists(ctx, rep, F(ctx, 'cfg_algorithms.cfg_derive_word', 'cfg_algorithms.cfg_derive_word.extract_derivation'))
+    P = ctx.prog.func
+    models.check_dfa_sim_column(ctx, rep, P('dfa_algorithms.dfa_simulate_word'))
+    models.check_backward_word(ctx, rep, P('nfa_algorithms.nfa_simulate_word'))
+    models.check_backward_word(ctx, rep, P('pda_algorithms.pda_simulate_word'))
+    if misc.check_arity(ctx, rep, P('cfg_algorithms.cfg_derive_word')) < 1:
+        raise AnalysisError('right-hand-side unpack in cfg_derive_word vanished')
+    _effect_on(ctx, rep, ['dfa_algorithms.dfa_simulate_word', 'nfa_algorithms.nfa_simulate_word', 'pda_algorithms.pda_simulate_word',
+                          'nfa_algorithms.nfa_find_epsilon_path', 'pda_algorithms.pda_find_epsilon_path', 'nfa_algorithms.nfa_find_transition',
+                          'pda_algorithms.pda_find_transition', 'cfg_algorithms.cfg_derive_word'], shared=False)
 
 
 def check_C18(ctx, rep):
@@ -169,13 +215,16 @@ def check_C19(ctx, rep):
 
 
 def check_C20(ctx, rep):
-    rep.clauses_decided += ['both explorations terminate and enqueue exactly the unseen pairs (R-WORK W2)']
+    rep.clauses_decided += ['both explorations terminate and enqueue exactly the unseen pairs (R-WORK W2)',
+                            'the relation built is checked in both directions: functional and injective (R-SYM)']
     rep.not_decided += ['that a passing exploration decides isomorphism of the reachable parts']
     _worklists_in(ctx, rep, ['dfa_algorithms.dfa_isomorphic', 'dfa_algorithms.dfa_isomorphic1'])
+    misc.check_symmetry(ctx, rep, ctx.prog.func('dfa_algorithms.dfa_isomorphic'))
+    misc.check_symmetry(ctx, rep, ctx.prog.func('dfa_algorithms.dfa_isomorphic1'))
     _effect_on(ctx, rep, ['dfa_algorithms.dfa_isomorphic', 'dfa_algorithms.dfa_isomorphic1'], shared=False)
 
 
 REGISTRY = {
     'C01': check_C01, 'C03': check_C03, 'C04': check_C04, 'C08': check_C08, 'C09': check_C09, 'C10': check_C10,
-    'C12': check_C12, 'C14': check_C14, 'C15': check_C15, 'C18': check_C18, 'C19': check_C19, 'C20': check_C20,
+    'C11': check_C11, 'C12': check_C12, 'C14': check_C14, 'C15': check_C15, 'C18': check_C18, 'C19': check_C19, 'C20': check_C20,
 }
